@@ -205,5 +205,16 @@ func vfH_C10_split(tier int) {
 		rest = EvalBool(residual, m)
 	}
 	vfAssert(truth == vfAnd(inRange, rest), "C10/range-and-residual-equal-the-original-condition")
+	// the clause is still the clause: splitting it again gives a range and residual with the same meaning
+	residual2, tr2, err2 := ConditionExpr(cond, valuer)
+	vfAssert(err2 == nil, "C10/second-split-of-the-same-clause-succeeds")
+	if err2 == nil {
+		inRange2 := vfAnd(tr2.MinTimeNano() <= c.pt.t, c.pt.t <= tr2.MaxTimeNano())
+		rest2 := true
+		if residual2 != nil {
+			rest2 = EvalBool(residual2, map[string]interface{}{"host": c.pt.host, "value": c.pt.value})
+		}
+		vfAssert(truth == vfAnd(inRange2, rest2), "C10/second-split-of-the-same-clause-has-the-same-meaning")
+	}
 	vfReach("C10_split/ok")
 }
